@@ -454,6 +454,49 @@ def fresh_cancellation():  # noqa: ANN201
                                  "fam:fresh_cancellation")  # fmt: skip
 
 
+def late_shield():  # noqa: ANN201
+    """an enclosing scope is cancelled, a task under it enters checkpoint_if_cancelled() (or
+    an ordinary checkpoint) and somebody raises a shield in between, at every cycle around
+    it: the task is either interrupted or goes on - it never gets stuck"""
+    for cfg in CFGS:
+        for k in (0, 1, 2):
+            for opk in ("cic", "cp"):
+                for a in (0, 1, 2, 3):
+                    for d in (0, 1, 2):
+                        for place in ("before", "after"):
+                            for target in ("g1", "s1"):
+                                inner = [[opk, 2], ["cp", 1]]
+                                cbody = [["cp", k]] + ([["scope", "s1", False, None, inner]]
+                                                       if target == "s1" else inner)  # fmt: skip
+                                child = {"tid": 1, "how": "start_soon", "body": cbody}
+                                root = [["scope", "s0", False, None,
+                                         [["group", 1, [child], [["cp", 4]]], ["cp", 1]]], ["cp", 2]]  # fmt: skip
+                                yield _p(cfg, root,
+                                         [{"at": a, "place": place, "do": ["cancel", "s0"]},
+                                          {"at": a + d, "place": place, "do": ["shield", target, True]}],
+                                         "fam:late_shield")  # fmt: skip
+
+        # the child is spawned into the already cancelled scope (the delivery skips a task
+        # that has not started yet), starts, enters the operation - and then the shield goes up
+        for opk in ("cic", "cp"):
+            for n in (1, 2, 3):
+                for at in range(0, 5):
+                    for place in ("before", "after"):
+                        for target in ("g1", "s1"):
+                            inner = [[opk, n], ["cp", 1]]
+                            cbody = [["scope", "s1", False, None, inner]] if target == "s1" else inner
+                            child = {"tid": 1, "how": "start_soon", "body": cbody}
+                            for host_shielded in (False, True):
+                                # (a host that waits behind a shield of its own is not
+                                # interrupted, so the group is not cancelled by its body)
+                                hbody = [["scope", "sh", True, None, [["cp", 5]]]] if host_shielded else [["cp", 4]]
+                                root = [["scope", "s0", False, None,
+                                         [["cancel", "s0"], ["group", 1, [child], hbody], ["cp", 1]]],
+                                        ["cp", 2]]  # fmt: skip
+                                yield _p(cfg, root, [{"at": at, "place": place, "do": ["shield", target, True]}],
+                                         "fam:late_shield")  # fmt: skip
+
+
 def shielded_checkpoint_window():  # noqa: ANN201
     """a task sits in cancel_shielded_checkpoint() while its scope, or an ancestor of it, gets
     cancelled by somebody else at every cycle around it: the yield is never interrupted, the
